@@ -4,7 +4,7 @@ import importlib
 
 MODULES = {
     'ubx': 'comp_parsers', 'nmea': 'comp_parsers', 'cid': 'comp_parsers',
-    'frame': 'comp_codec', 'ck': 'comp_codec', 'fields': 'comp_codec', 'ch': 'comp_codec', 'assign': 'comp_codec',
+    'frame': 'comp_codec', 'ck': 'comp_codec', 'fields': 'comp_codec', 'ch': 'comp_codec', 'subitem': 'comp_codec', 'assign': 'comp_codec',
     'key': 'comp_codec', 'valset': 'comp_codec', 'gnss': 'comp_codec', 'helper': 'comp_codec', 'render': 'comp_codec',
     'srv': 'comp_server', 'seq': 'comp_server', 'tty': 'comp_server', 'scan': 'comp_server',
     'gpsd': 'comp_server', 'gpsdtx': 'comp_server', 'level': 'comp_server',
